@@ -42,6 +42,7 @@ func (vc *VC) run() (err error) {
 	}
 	vc.entry = st.clone()
 	vc.findLoops()
+	vc.sourceOrdinals()
 
 	env := vc.baseEnv(st)
 	vc.assumeGlobals(st)
@@ -1298,7 +1299,16 @@ func (vc *VC) load(st *State, a *Addr, resTy types.Type) string {
 	case "elem":
 		return sx("select", sx("select", vc.heapGet(st, a.Comp, "(Array Int (Array Int "+a.Sort+"))"), a.Ref), a.Idx)
 	case "global":
-		return vc.heapGet(st, a.Comp, a.Sort)
+		t := vc.heapGet(st, a.Comp, a.Sort)
+		if n, ok := a.Typ.(*types.Named); ok && n.Obj().Pkg() == nil && n.Obj().Name() == "error" && strings.HasPrefix(a.Comp, "G_") {
+			// package-level error variables (var ErrX = errors.New(...)) are non-nil; checked: no function other
+			// than the package initialiser stores to them (writer scan in the mod-set analysis)
+			if vc.ms == nil || vc.ms.onlyInitWrites(a.Comp) {
+				vc.assume(st, sx("not", sx("=", t, "0")))
+				vc.assumedUse["package-level error variables are non-nil (only written by package initialisers: checked)"] = true
+			}
+		}
+		return t
 	case "obj":
 		if isStructLike(a.Typ) {
 			// loading a whole struct: snapshot copy
@@ -2006,4 +2016,33 @@ func lemmaObligations(w *World, cs *Contracts, lm *Lemma) ([]*Obligation, error)
 		ob.Cmds = vc.cmds[:ob.Pos]
 	}
 	return vc.obls, nil
+}
+
+// sourceOrdinals numbers the static calls of each callee in source order (anchors must not depend on block order).
+func (vc *VC) sourceOrdinals() {
+	vc.srcOrd = map[*ssa.CallCommon]int{}
+	by := map[string][]*ssa.CallCommon{}
+	pos := map[*ssa.CallCommon]token.Pos{}
+	for _, b := range vc.fn.Blocks {
+		for _, ins := range b.Instrs {
+			ci, ok := ins.(ssa.CallInstruction)
+			if !ok {
+				continue
+			}
+			c := ci.Common()
+			callee := c.StaticCallee()
+			if callee == nil {
+				continue
+			}
+			k := funcKey(callee)
+			by[k] = append(by[k], c)
+			pos[c] = ins.Pos()
+		}
+	}
+	for _, cs := range by {
+		sort.SliceStable(cs, func(i, j int) bool { return pos[cs[i]] < pos[cs[j]] })
+		for i, c := range cs {
+			vc.srcOrd[c] = i + 1
+		}
+	}
 }
